@@ -361,7 +361,7 @@ def write_minc1(path, shape, nscales, salt=0, raw=None, factors=None, vr=MINC_VR
     from nibabel.externals.netcdf import netcdf_file
     names = ['time', 'zspace', 'yspace', 'xspace'][-len(shape):]
     n = int(np.prod(shape))
-    fdt = {'h': '>i2', 'b': 'i1', 'i': '>i4'}[code]
+    fdt = {'h': '>i2', 'b': 'i1', 'i': '>i4', 'f': '>f4', 'd': '>f8'}[code]
     if raw is None:
         raw = raw_values(n, '>i2', salt) % 4096
     raw = np.asarray(raw).astype(fdt)
@@ -394,6 +394,10 @@ def _minc_spec(shape, nscales, raw, imin, imax, dtype, path, vr=MINC_VR):
     imin, imax = np.asarray(imin, dtype=np.float64), np.asarray(imax, dtype=np.float64)
     slope = (imax - imin) / (vr[1] - vr[0])
     inter = imin - vr[0] * slope
+    if np.dtype(dtype).kind == 'f':          # float-typed image: _normalize returns the data as read
+        return dict(kind='minc', shape=tuple(shape), raw=np.asarray(raw).ravel(), order='C', nscales=nscales, isfloat=True,
+                    fac_of_elem=np.zeros(n, int), slopes=None, inters=None, w=dtype.itemsize, off=None, dtype=dtype,
+                    img_file=path, hdr_file=path, one_file=True)
     return dict(kind='minc', shape=tuple(shape), raw=np.asarray(raw).ravel(), order='C', nscales=nscales,
                 fac_of_elem=np.arange(n) // m if nscales else np.zeros(n, int),
                 slopes=list(slope), inters=list(inter), imin=imin, imax=imax, vr=vr, w=dtype.itemsize, off=None, dtype=dtype,
